@@ -218,6 +218,11 @@ def obligations(tier, rng):
                 out.append(ob('C19', 'grid', 'nest/%s/N=4' % text(f), f=f, N=4, P='1', max_paths=40000, wall=1200))
                 if k1 != k2:
                     out.append(ob('C19', 'grid', 'nest-online/%s/N=3' % text(f), f=f, N=3, P='1', mode='online', max_paths=40000, wall=1200))
+    # one variable used twice, once under an operator that could rewrite its samples in place
+    for un in ('abs', 'neg', 'not', 'once', 'historically'):
+        for f in [('and', (un, X), X), ('sub', X, (un, X)), ('or', ('once_t', (un, X), 0, 1), ('historically_t', X, 0, 1))]:
+            for mode in ('offline', 'online'):
+                out.append(ob('C19', 'grid', 'twice/%s/%s/N=4' % (mode, text(f)), f=f, N=4, P='1', mode=mode, max_paths=40000, wall=900))
     # specification-shaped examples
     for f in [('implies', ('geq', X, ('const', 3.0)), ('eventually_t', ('geq', Y, ('const', 3.0)), 0, 2)),
               ('always_t', ('or', ('leq', X, Y), ('once_t', ('gt', Y, ('const', 0.0)), 0, 1)), 0, 2),
